@@ -129,8 +129,16 @@ def random_field(rng: random.Random, used: set[str], versions: list[int], flex_f
         elif nullable and rng.random() < 0.3 and f.get("nullableVersions") == f["versions"]:
             f["default"] = "null"
             constructs.append("default:null")
+        if rng.random() < 0.15 and not array:
+            f["ignorable"] = True  # (has no effect on an untagged field; combined with an explicit default on a tagged one it must not change anything)
+            constructs.append("ignorable" + (":with-default" if "default" in f else ""))
         if can_tag and typ != "records":
             _tag(rng, f, fv, flexible_fv, flex_from, tags, constructs, last)
+            if not array and "nullableVersions" not in f and typ in ("string", "bool", "float64") + interpret.NUMERIC[:-1] and rng.random() < 0.3:
+                # falsy explicit defaults ("" / 0 / false / 0.0) together with ignorable on a tagged field: `if default:` style slips
+                f["default"] = {"string": "", "bool": "false", "float64": "0.0"}.get(typ, rng.choice(("0", "0x0")))
+                f["ignorable"] = True
+                constructs.append("tagged:ignorable-falsy-default")
             tagged_nullable = "nullableVersions" in f and not array
             if tagged_nullable:
                 # tagged nullable => nullable in every tagged version with default null
